@@ -249,3 +249,48 @@ def snap_diff(a, b, ignore=("ino",), ignore_dir_times=True):
         if da != db:
             out.append((k, ea, eb))
     return out
+
+
+def mut_codes(run, path):
+    """mutating action codes (Run.act_code) on one destination file, writes collapsed"""
+    out = []
+    for e in run.trace:
+        if e.get("ret") is None:
+            continue
+        s = e["sys"]
+        c = None
+        if e["ret"] < 0 and not (s == "ioctl" and e["a"][1] == FICLONE):
+            continue
+        if s in ("rename", "renameat", "renameat2") and e["p1"] == path:
+            c = 1
+        elif s in ("openat", "open") and e["p1"] == path and ((e["a"][2] if s == "openat" else e["a"][1]) & os.O_CREAT):
+            c = 2
+        elif s == "ftruncate" and e["p1"] == path:
+            c = 3
+        elif s == "ioctl" and e["a"][1] == FICLONE and e["p1"] == path:
+            c = 4
+        elif (s == "copy_file_range" and e["p2"] == path) or (s in ("write", "pwrite64") and e["p1"] == path):
+            c = 5
+        elif s == "fchown" and e["p1"] == path:
+            c = 6
+        elif s == "fsetxattr" and e["p1"] == path:
+            c = 7
+        elif s == "fchmod" and e["p1"] == path:
+            c = 8
+        elif s == "utimensat" and e["p1"] == path:
+            c = 9
+        elif s in ("fsync", "fdatasync") and e["p1"] == path:
+            c = 10
+        if c is not None and not (c == 5 and out and out[-1] == 5):
+            out.append(c)
+    return out
+
+
+def mutation_paths(ev):
+    """paths an event may change"""
+    s = ev["sys"]
+    if s in ("rename", "renameat", "renameat2", "link", "linkat"):
+        return [ev["p1"], ev["p2"]]
+    if s == "copy_file_range":
+        return [ev["p2"]]
+    return [ev["p1"]]
